@@ -86,14 +86,18 @@ func (cfg *Config) setDefaults() {
 func NewWriter(out io.Writer, cfg *Config) (*Writer, error) {
 	o := *cfg
 	o.setDefaults()
-	w := &Writer{
-		cfg:   o,
-		block: make([]byte, o.BlockSize),
-	}
-
 	if cfg.BlockSize >= (1 << 24) {
 		return nil, errors.New("reftable: invalid blocksize")
 	}
+	w := &Writer{
+		cfg: o,
+	}
+	// The first block holds the file header and a block header: a
+	// block size below that leaves no room for either.
+	if int(o.BlockSize) < w.headerSize()+4 {
+		return nil, errors.New("reftable: invalid blocksize")
+	}
+	w.block = make([]byte, o.BlockSize)
 
 	w.paddedWriter.out = out
 	if !cfg.SkipIndexObjects {
